@@ -184,6 +184,7 @@ def gen_data(rs, n, ykind):
 
 
 YKINDS = ['normal', 'hetero', 'heavy', 'integer', 'skew']
+BALANCE_UNITS = [1.0, 1.0, 1e-6, 1.0, 1e-3, 1e4, 1e-9]
 
 
 def make_case(seed, stream, idx, tier, force=None, taus=None):
@@ -200,18 +201,24 @@ def make_case(seed, stream, idx, tier, force=None, taus=None):
     yk = force.get('yk', YKINDS[r.randrange(len(YKINDS))])
     X, y = gen_data(rs, n, yk)
     w = gen_weights(wk, n, rs, y)
-    return dict(stream=stream, idx=idx, mix=mix, tau=tau, wk=wk, n=n, lam=lam, ns=ns, yk=yk, X=X, y=y, w=w, rs=rs, r=r)
+    # unit of the response (balance stream): the criterion is homogeneous in y, the code must not carry an absolute scale
+    # (a residual compared with tol, a floor on the weights, ...); the other streams keep unit 1
+    unit = force.get('unit', BALANCE_UNITS[(idx // 2) % len(BALANCE_UNITS)] if stream == 'fit.balance' else 1.0)
+    y = y * unit
+    return dict(stream=stream, idx=idx, mix=mix, tau=tau, wk=wk, n=n, lam=lam, ns=ns, yk=yk, X=X, y=y, w=w, rs=rs, r=r, unit=unit)
 
 
 def case_sig(c, **extra):
     d = dict(mix=c['mix'], tau=c['tau'], wk=c['wk'], n=c['n'], lam=c['lam'], ns=c['ns'], yk=c['yk'], idx=c['idx'])
+    if c.get('unit', 1.0) != 1.0:
+        d['unit'] = c['unit']
     d.update(extra)
     return d
 
 
 def case_replay(seed, c, **extra):
     d = dict(seed=seed, stream=c['stream'], idx=c['idx'],
-             force=dict(mix=c['mix'], tau=c['tau'], wk=c['wk'], n=c['n'], lam=c['lam'], ns=c['ns'], yk=c['yk']))
+             force=dict(mix=c['mix'], tau=c['tau'], wk=c['wk'], n=c['n'], lam=c['lam'], ns=c['ns'], yk=c['yk'], unit=c.get('unit', 1.0)))
     d.update(extra)
     return d
 
@@ -400,7 +407,8 @@ def run_balance(ctx, pygam, idxs=None, lits=()):
             continue
         ctx.case(st, sig, nontrivial=(c['tau'] != 0.5), sample=dict(mix=c['mix'], tau=c['tau'], wk=c['wk'], n=c['n']))
         bal = np_balance(c['tau'], w32, c['y'], mu)
-        scale = float(np.sum(w32 * np.abs(c['y'] - mu))) + 1.0
+        scale = float(np.sum(w32 * np.abs(c['y'] - mu))) + c['unit']
+        ctx.count('balance: unit of the response', '%g' % c['unit'])
         want = SQRT_EPS * b0
 
         def too_far(bal, mu, w32, b0, margin):
